@@ -6,4 +6,20 @@ LEVEL_TEXT = ("C02: every API call of a conformant program, from any reachable b
 
 def obligations(tier, sc):
     obs = step_obligations(2, tier, [0, 1, 2, 3])
+    # metadata completeness: the full protocol run of C09's harness, event free, both modes
+    from checks.fs_common import gen_parson, FUNCS
+    gen_parson(sc)
+    for tmp in (0, 1):
+        obs.append(Obligation(
+            name="metadata_complete_%s" % ("tmpdir" if tmp else "direct"), harness="C09/fs_run.c",
+            defines=["GFS_MODE=0", "GFS_TMPDIR=%d" % tmp, "GFS_BENIGN_SHORT=0", "ATTR_FLUSH=1", "CONCRETE_SIZES", "C02_META"] + (["GFS_JSON_FIRST=1"] if tmp else []),
+            unwind=70, unwindset=["ovni_ev_add:3", "add_flush_events:3", "write_evbuf.0:5", "move_thread_to_final.0:5", "move_thdir_to_final.0:4",
+                                  "move_thdir_to_final.1:5", "v_readdir.0:4", "set_thread_cpus.0:3"],
+            native_srcs=["src/parson.c"], native_cflags=["-Wl,--allow-multiple-definition"], extra=["--object-bits", "10"], timeout=600,
+            desc=dict(functions=FUNCS + ["ovni_proc_set_rank", "ovni_add_cpu", "set_thread_rank", "set_thread_cpus"],
+                      symbolic="whether ovni_proc_set_rank / ovni_add_cpu are called and their arguments; stdio buffering choices",
+                      bound="one process, one thread, full protocol run (proc_init .. proc_fini), fault free",
+                      out="contents of the attribute VALUES (only which keys are set is tracked; tid/pid/loom values are C12/C15 on the emulator side)",
+                      oracle="the keys present in the final serialisation of stream.json are exactly the mandatory ones plus rank/nranks and loom_cpus iff set; finished = 1; the file ends up complete in the trace directory",
+                      assumptions=["content-free parson ghost that records which keys are set (stubs/ghostfs.h)"])))
     return obs
